@@ -422,6 +422,10 @@ pub struct TCase {
   /// every increment must take effect (no late subscriber in this mode)
   #[serde(default)]
   by: bool,
+  /// the producers call `next_by(move |_| unique value)`: what is stored and
+  /// what is emitted must be that value, once (all rules of the `next` mode)
+  #[serde(default)]
+  by_const: bool,
 }
 
 pub struct C12Threads;
@@ -442,11 +446,12 @@ impl Scenario for C12Threads {
       _ => Strategy::Pct { d: rng.range(1, 3) as u8, k: 40 },
     };
     let by = np == 2 && rng.chance(1, 4);
-    serde_json::to_value(TCase { producers, late_subscriber: !by && (np == 1 || rng.chance(2, 3)), sched: SchedSpec::Seeded { seed: rng.next_u64(), strategy }, by }).unwrap()
+    let by_const = !by && rng.chance(1, 4);
+    serde_json::to_value(TCase { producers, late_subscriber: !by && (np == 1 || rng.chance(2, 3)), sched: SchedSpec::Seeded { seed: rng.next_u64(), strategy }, by, by_const }).unwrap()
   }
   fn run(&self, case: &Value) -> Result<Outcome, String> {
     let case: TCase = serde_json::from_value(case.clone()).map_err(|e| e.to_string())?;
-    if case.producers.is_empty() || case.producers.len() > 3 || case.producers.iter().any(|n| *n > 5) || (case.by && case.late_subscriber) {
+    if case.producers.is_empty() || case.producers.len() > 3 || case.producers.iter().any(|n| *n > 5) || (case.by && (case.late_subscriber || case.by_const)) {
       return Err("bad shape".into());
     }
     let shr = Shared::new();
@@ -462,10 +467,14 @@ impl Scenario for C12Threads {
       let mut b = b.clone();
       let n = *n;
       let by = case.by;
+      let by_const = case.by_const;
       bodies.push(Box::new(move || {
         for i in 0..n {
           if by {
             Behavior::<i64, E>::next_by(&mut b, |v| v + 1);
+          } else if by_const {
+            let x = (t as i64 + 1) * 100 + i as i64;
+            Behavior::<i64, E>::next_by(&mut b, move |_| x);
           } else {
             b.next((t as i64 + 1) * 100 + i as i64);
           }
@@ -486,7 +495,7 @@ impl Scenario for C12Threads {
     }
     let rep = ts.run(bodies);
     let peek = Behavior::<i64, E>::peek(&b);
-    let site = format!("BehaviorSubject<SubjectThreads> producers={}{}", if case.producers.len() >= 2 { "many" } else { "one" }, if case.by { " next_by" } else { "" });
+    let site = format!("BehaviorSubject<SubjectThreads> producers={}{}", if case.producers.len() >= 2 { "many" } else { "one" }, if case.by { " next_by" } else if case.by_const { " next_by(const)" } else { "" });
     let order: Vec<i64> = stable.events().iter().filter_map(|e| if let Ev::Next(Val::I(i)) = e { Some(*i) } else { None }).collect();
     let late_items: Vec<i64> = late.events().iter().filter_map(|e| if let Ev::Next(Val::I(i)) = e { Some(*i) } else { None }).collect();
     let total: usize = case.producers.iter().sum();
@@ -573,7 +582,7 @@ pub fn check_def() -> PropertyCheck {
     id: "C12",
     scenarios: vec![Box::new(C12Des), Box::new(C12Threads)],
     runs: (250_000, 12_000_000),
-    rule: "DES case = flavour x initial value x history of <=12 ops (next, next_by, clone, subscribe, unsubscribe-one, peek, complete, error) through up to 3 clones, compared with a (value, live list) model; thread case = 1-2 producer threads x 1-3 items (next of unique values, or - two producers - next_by(+1) where every increment must take effect) + optional late subscriber thread on BehaviorSubject<_, SubjectThreads> under a seeded lock-level schedule; non-trivial = >=1 subscriber and >=3 ops (DES) / a decision with >1 eligible thread (threads)",
+    rule: "DES case = flavour x initial value x history of <=12 ops (next, next_by, clone, subscribe, unsubscribe-one, peek, complete, error) through up to 3 clones, compared with a (value, live list) model; thread case = 1-2 producer threads x 1-3 items (next of unique values, next_by(move |_| unique value), or - two producers - next_by(+1) where every increment must take effect) + optional late subscriber thread on BehaviorSubject<_, SubjectThreads> under a seeded lock-level schedule; non-trivial = >=1 subscriber and >=3 ops (DES) / a decision with >1 eligible thread (threads)",
     assumptions: vec!["sequentially consistent execution"],
   }
 }
